@@ -146,8 +146,18 @@ def layered_plan(world, fault, fill):
                 "delim": "=", "comment": "#", "tag": "libobj"})
     ops.append({"op": "free", "k": 7})
     ops.append({"op": "freeNull", "tag": "freenull"})
+    # the working directory is removed under the process: relative names that start with ".." still reach their file for
+    # lstat(), but the directory part can no longer be made absolute - one more way for a read to fail midway
+    ops.append({"op": "chdir", "path": "$ROOT/gone/cwd"})
+    ops.append({"op": "rmcwd"})
+    ops.append({"op": "readFile", "o": 9, "path": "../relx.conf", "delim": "=", "comment": "#", "init": world["init"], "tag": "nocwd"})
+    ops.append({"op": "free", "k": 9})
+    ops.append({"op": "readDirsHistory", "o": 9, "usr": "../relusr", "etc": "../reletc", "name": "app", "suffix": "conf", "delim": "=", "comment": "#", "tag": "nocwd"})
+    ops.append({"op": "freeHistory", "h": 9})
     cfg = dict(world["cfg"], fill=fill)
-    return {"cfg": cfg, "tree": gen.tree_plan(nodes), "ops": ops}
+    tree = gen.tree_plan(nodes) + [{"t": "f", "p": "$ROOT/gone/relx.conf", "c": "k=v\n"}, {"t": "f", "p": "$ROOT/gone/relusr/app.conf", "c": "a=1\n"},
+                                   {"t": "f", "p": "$ROOT/gone/reletc/app.conf.d/x.conf", "c": "b=2\n"}]
+    return {"cfg": cfg, "tree": tree, "ops": ops}
 
 
 def history_plan(world, fill):
